@@ -649,11 +649,12 @@ theorem run_P (hs : SpaceOK P Tok ops) {rounds : List (Round α τ)} {c c' : Cbo
 section fresh
 variable (C : List α → Prop)
 
-/-- A proposal `z` is fine w.r.t. the earlier proposals `H`: it was selected from a candidate
-list satisfying `C`, and if it repeats an earlier proposal then every candidate it was selected
-from had been proposed before. -/
+/-- A proposal `z` is fine w.r.t. the earlier proposals `H`: it is an initial point (given by
+the user or pre-computed by a design: selected from no candidate list) that was never proposed
+before; or it was selected from a candidate list satisfying `C`, and if it repeats an earlier
+proposal then every candidate it was selected from had been proposed before. -/
 def SelOK (H : List α) (z : Sel α) : Prop :=
-  C z.offered ∧ (z.x ∈ H → ∀ c ∈ z.offered, c ∈ H)
+  (z.offered = [] ∧ z.x ∉ H) ∨ (C z.offered ∧ (z.x ∈ H → ∀ c ∈ z.offered, c ∈ H))
 
 /-- `SelOK` for a sequence of proposals, each one judged against everything proposed before it -/
 def SelsOK : List α → List (Sel α) → Prop
@@ -674,7 +675,7 @@ theorem selsOK_of_fresh {cands : List α} (hC : C cands) : ∀ {b : List α} {H 
     SelsOK C H (b.map (fun x => (⟨x, cands⟩ : Sel α)))
   | [], _, _ => trivial
   | x :: b, H, h => by
-    refine ⟨⟨hC, ?_⟩, selsOK_of_fresh hC ?_⟩
+    refine ⟨Or.inr ⟨hC, ?_⟩, selsOK_of_fresh hC ?_⟩
     · intro hx
       rcases h with h | ⟨_, h⟩
       · exact h
@@ -688,12 +689,38 @@ theorem selsOK_of_fresh {cands : List α} (hC : C cands) : ∀ {b : List α} {H 
         · exact h y (List.mem_cons_of_mem _ hy) h1
         · simp at h1; subst h1; exact hnd'.1 hy
 
-/-- the bookkeeping invariant: duplicates are filtered, no pre-computed initial design is
-pending, and `sampled` holds exactly what has been proposed (`H`) -/
+/-- the bookkeeping invariant: duplicates are filtered, `sampled` holds exactly what has been
+proposed (`H`), and `_n_initial_points` counts down the non-failed results told so far -/
 structure Good (s : Opt α) (H : List α) : Prop where
   on : s.filterOn = true
-  noInit : s.initSamples = []
   smp : ∀ x, x ∈ s.sampled ↔ x ∈ H
+  cnt : s.nInit = s.nInit0 - (nonFail s.told : Nat)
+
+/-- the initial points still pending (given by the user / pre-computed by a design): as long as
+the optimizer is in its random phase — the only phase in which they are handed out — they are
+pairwise distinct and none of them has been proposed yet -/
+def InitOK (s : Opt α) (H : List α) : Prop :=
+  s.randomPhase = true → s.initSamples.Nodup ∧ ∀ x ∈ s.initSamples, x ∉ H
+
+theorem nonFail_append (a b : List (α × Obj)) : nonFail (a ++ b) = nonFail a + nonFail b := by
+  simp [nonFail, List.filter_append]
+
+/-- `InitOK` only looks at the phase and at the pending initial points -/
+theorem initOK_of_fields {s s' : Opt α} {H : List α} (hi : InitOK s H)
+    (h1 : s'.initSamples = s.initSamples) (h2 : s'.nInit ≤ s.nInit) (h3 : s'.dummy = s.dummy) :
+    InitOK s' H := by
+  intro hr
+  rw [h1]
+  apply hi
+  unfold Opt.randomPhase at hr ⊢
+  rw [h3] at hr
+  simp only [Bool.or_eq_true, decide_eq_true_eq] at hr ⊢
+  rcases hr with hr | hr
+  · exact Or.inl (by omega)
+  · exact Or.inr hr
+
+theorem initOK_of_not_random {s : Opt α} (H : List α) (h : s.randomPhase = false) : InitOK s H := by
+  intro hr; rw [h] at hr; cases hr
 
 /-- `_next_x` (if set) is new w.r.t. `H`, or was selected from an exhausted candidate list -/
 def NextU (s : Opt α) (H : List α) : Prop :=
@@ -714,7 +741,7 @@ variable {ops : Ops α τ}
 theorem fit_next {s s' : Opt α} {e : Fit α τ} {H : List α} (hg : Good s H) (he : FitRT C ops e)
     (h : fit ops s e = .ok s') : Good s' H ∧ NextU C s' H ∧ s'.cache = s.cache := by
   obtain ⟨x, rfl, hx⟩ := fit_ok h
-  refine ⟨⟨hg.on, hg.noInit, hg.smp⟩, ?_, rfl⟩
+  refine ⟨⟨hg.on, hg.smp, hg.cnt⟩, ?_, rfl⟩
   intro y hy
   cases hy
   refine ⟨he.c, ?_⟩
@@ -739,7 +766,25 @@ theorem fit_next {s s' : Opt α} {e : Fit α τ} {H : List α} (hg : Good s H) (
   · exact key _ c hc hfin
 
 theorem told1_good {s : Opt α} {H : List α} (hg : Good s H) (xs : List (α × Obj)) :
-    Good (told1 s xs) H := ⟨hg.on, hg.noInit, hg.smp⟩
+    Good (told1 s xs) H := by
+  refine ⟨hg.on, hg.smp, ?_⟩
+  show s.nInit - (nonFail xs : Nat) = s.nInit0 - (nonFail (s.told ++ xs) : Nat)
+  rw [nonFail_append, hg.cnt]
+  omega
+
+/-- what `_tell` does to the fields the phase depends on -/
+theorem tellCore_fields {s s' : Opt α} {xs : List (α × Obj)} {e : Fit α τ}
+    (h : tellCore ops s xs e = .ok s') :
+    s'.nInit = s.nInit - (nonFail xs : Nat) ∧ s'.dummy = s.dummy ∧ s'.initSamples = s.initSamples := by
+  rcases tellCore_ok h with ⟨_, hf⟩ | ⟨_, rfl⟩
+  · obtain ⟨x, rfl, _⟩ := fit_ok hf
+    exact ⟨rfl, rfl, rfl⟩
+  · exact ⟨rfl, rfl, rfl⟩
+
+theorem tellCore_initOK {s s' : Opt α} {xs : List (α × Obj)} {e : Fit α τ} {H : List α}
+    (hi : InitOK s H) (h : tellCore ops s xs e = .ok s') : InitOK s' H := by
+  have ⟨h1, h2, h3⟩ := tellCore_fields h
+  exact initOK_of_fields hi h3 (by rw [h1]; omega) h2
 
 /-- after `_tell`: either `_next_x` was recomputed, or the optimizer is (still) in its random
 phase and nothing but the counters changed -/
@@ -770,53 +815,87 @@ theorem tellCore_nextOK {s s' : Opt α} {xs : List (α × Obj)} {e : Fit α τ} 
   · rw [h3] at hr; cases hr
 
 theorem copy_next {s c : Opt α} {e : Fit α τ} {H : List α} (hg : Good s H) (he : FitRT C ops e)
-    (h : copy ops s e = .ok c) : Good c H ∧ NextU C c H := by
-  have hg0 : Good (copy0 s) H := ⟨hg.on, hg.noInit, hg.smp⟩
+    (h : copy ops s e = .ok c) :
+    Good c H ∧ NextU C c H ∧ c.nInit = s.nInit ∧ c.dummy = s.dummy ∧ c.initSamples = s.initSamples := by
+  have hg0 : Good (copy0 s) H := ⟨hg.on, hg.smp, by simp [copy0, nonFail]⟩
   have hn0 : NextU C (copy0 s) H := by intro x hx; cases hx
-  rcases copy_ok h with ⟨_, rfl⟩ | ⟨_, ht⟩
-  · exact ⟨hg0, hn0⟩
+  rcases copy_ok h with ⟨hemp, rfl⟩ | ⟨_, ht⟩
+  · refine ⟨hg0, hn0, ?_, rfl, rfl⟩
+    have := hg.cnt
+    rw [List.isEmpty_iff.1 hemp] at this
+    simp only [nonFail, List.filter_nil, List.length_nil] at this
+    show s.nInit0 = s.nInit
+    omega
   · have ⟨h1, _, h3⟩ := tellCore_next hg0 he ht
-    refine ⟨h1, ?_⟩
-    rcases h3 with h3 | ⟨_, h3, _⟩
-    · exact h3
-    · intro x hx; rw [h3] at hx; cases hx
+    have ⟨f1, f2, f3⟩ := tellCore_fields ht
+    refine ⟨h1, ?_, ?_, f2, f3⟩
+    · rcases h3 with h3 | ⟨_, h3, _⟩
+      · exact h3
+      · intro x hx; rw [h3] at hx; cases hx
+    · rw [f1, hg.cnt]; rfl
 
 theorem updateNext_next {s s' : Opt α} {e : Fit α τ} {H : List α} (hg : Good s H)
     (he : FitRT C ops e) (h : updateNext ops s e = .ok s') :
     Good s' H ∧ s'.cache = none ∧ NextOK C s' H := by
   rcases updateNext_ok h with ⟨hn, rfl⟩ | ⟨x, c, y, _, hc, hy, rfl⟩
-  · refine ⟨⟨hg.on, hg.noInit, hg.smp⟩, rfl, ?_⟩
+  · refine ⟨⟨hg.on, hg.smp, hg.cnt⟩, rfl, ?_⟩
     intro _ z hz
     rw [show ({ s with cache := none } : Opt α).nextX = s.nextX from rfl, hn] at hz
     cases hz
-  · have hg1 : Good ({ s with cache := none } : Opt α) H := ⟨hg.on, hg.noInit, hg.smp⟩
-    have ⟨_, hcn⟩ := copy_next hg1 he hc
-    refine ⟨⟨hg.on, hg.noInit, hg.smp⟩, rfl, ?_⟩
+  · have hg1 : Good ({ s with cache := none } : Opt α) H := ⟨hg.on, hg.smp, hg.cnt⟩
+    have ⟨_, hcn, _⟩ := copy_next hg1 he hc
+    refine ⟨⟨hg.on, hg.smp, hg.cnt⟩, rfl, ?_⟩
     intro _ z hz
     cases hz
     exact hcn y hy
 
+theorem updateNext_fields {s s' : Opt α} {e : Fit α τ} (h : updateNext ops s e = .ok s') :
+    s'.nInit = s.nInit ∧ s'.dummy = s.dummy ∧ s'.initSamples = s.initSamples := by
+  rcases updateNext_ok h with ⟨_, rfl⟩ | ⟨x, c, y, _, _, _, rfl⟩ <;> exact ⟨rfl, rfl, rfl⟩
+
+theorem updateNext_initOK {s s' : Opt α} {e : Fit α τ} {H : List α} (hi : InitOK s H)
+    (h : updateNext ops s e = .ok s') : InitOK s' H := by
+  have ⟨h1, h2, h3⟩ := updateNext_fields h
+  exact initOK_of_fields hi h3 (by omega) h2
+
 theorem askOne_fresh {s s' : Opt α} {cands : List α} {z : Sel α} {H : List α} (hg : Good s H)
-    (hn : NextOK C s H) (hC : C cands) (h : askOne s cands = .ok (s', z)) :
-    SelOK C H z ∧ Good s' (H ++ [z.x]) := by
-  have good' : ∀ (s'' : Opt α), s''.filterOn = s.filterOn → s''.initSamples = s.initSamples →
-      s''.sampled = s.sampled ++ [z.x] → Good s'' (H ++ [z.x]) := by
-    intro s'' h1 h2 h3
-    refine ⟨h1 ▸ hg.on, h2 ▸ hg.noInit, ?_⟩
+    (hi : InitOK s H) (hn : NextOK C s H) (hC : C cands) (h : askOne s cands = .ok (s', z)) :
+    SelOK C H z ∧ Good s' (H ++ [z.x]) ∧ InitOK s' (H ++ [z.x]) := by
+  have good' : ∀ (s'' : Opt α), s''.filterOn = s.filterOn →
+      s''.sampled = s.sampled ++ [z.x] → s''.nInit = s''.nInit0 - (nonFail s''.told : Nat) →
+      Good s'' (H ++ [z.x]) := by
+    intro s'' h1 h3 h4
+    refine ⟨h1 ▸ hg.on, ?_, h4⟩
     intro x
     rw [h3, List.mem_append, List.mem_append, hg.smp x]
-  rcases askOne_ok h with ⟨_, _, ⟨rest, hf⟩, ho, rfl⟩ | ⟨_, ⟨rest, hr, _⟩, _⟩ | ⟨hr, hx, ho, rfl⟩
-  · refine ⟨⟨ho ▸ hC, ?_⟩, good' _ rfl rfl rfl⟩
-    intro hxH
-    have hmem : z.x ∈ filterDup true s.sampled cands := by
-      rw [← hg.on, hf]; exact List.mem_cons_self
-    rw [ho]
-    rcases filterDup_fresh hmem with h1 | h1
-    · exact absurd ((hg.smp _).2 hxH) h1
-    · exact fun c hc => (hg.smp c).1 (h1 c hc)
-  · rw [hg.noInit] at hr; cases hr
+  rcases askOne_ok h with ⟨_, hinit, ⟨rest, hf⟩, ho, rfl⟩ | ⟨hr, ⟨rest, hri, rfl⟩, ho⟩ | ⟨hr, hx, ho, rfl⟩
+  · refine ⟨Or.inr ⟨ho ▸ hC, ?_⟩, good' _ rfl rfl hg.cnt, ?_⟩
+    · intro hxH
+      have hmem : z.x ∈ filterDup true s.sampled cands := by
+        rw [← hg.on, hf]; exact List.mem_cons_self
+      rw [ho]
+      rcases filterDup_fresh hmem with h1 | h1
+      · exact absurd ((hg.smp _).2 hxH) h1
+      · exact fun c hc => (hg.smp c).1 (h1 c hc)
+    · intro _
+      show s.initSamples.Nodup ∧ ∀ x ∈ s.initSamples, x ∉ H ++ [z.x]
+      rw [hinit]
+      exact ⟨List.nodup_nil, fun x hx => by cases hx⟩
+  · -- an initial point: never proposed before, and the pending ones stay distinct from it
+    have ⟨hnd, hnew⟩ := hi hr
+    rw [hri] at hnd hnew
+    have hnd' := List.nodup_cons.1 hnd
+    refine ⟨Or.inl ⟨ho, hnew z.x List.mem_cons_self⟩, good' _ rfl rfl hg.cnt, ?_⟩
+    intro _
+    refine ⟨hnd'.2, ?_⟩
+    intro y hy hmem
+    rcases List.mem_append.1 hmem with h1 | h1
+    · exact hnew y (List.mem_cons_of_mem _ hy) h1
+    · simp only [List.mem_singleton] at h1
+      subst h1
+      exact hnd'.1 hy
   · have := hn hr z.x hx
-    exact ⟨⟨ho ▸ this.1, ho ▸ this.2⟩, good' _ rfl rfl rfl⟩
+    exact ⟨Or.inr ⟨ho ▸ this.1, ho ▸ this.2⟩, good' _ rfl rfl hg.cnt, initOK_of_not_random _ hr⟩
 
 end fresh
 
@@ -825,11 +904,25 @@ section fresh2
 variable {C : List α → Prop} {ops : Ops α τ}
 
 theorem good_append {s : Opt α} {H : List α} (hg : Good s H) (s' : Opt α) (X : List α)
-    (h1 : s'.filterOn = s.filterOn) (h2 : s'.initSamples = s.initSamples)
-    (h3 : s'.sampled = s.sampled ++ X) : Good s' (H ++ X) := by
-  refine ⟨h1 ▸ hg.on, h2 ▸ hg.noInit, ?_⟩
+    (h1 : s'.filterOn = s.filterOn) (h3 : s'.sampled = s.sampled ++ X)
+    (h4 : s'.nInit = s'.nInit0 - (nonFail s'.told : Nat)) : Good s' (H ++ X) := by
+  refine ⟨h1 ▸ hg.on, ?_, h4⟩
   intro x
   rw [h3, List.mem_append, List.mem_append, hg.smp x]
+
+/-- initial points that are pairwise distinct and were never proposed make a fine sequence -/
+theorem selsOK_init (C : List α → Prop) : ∀ {a : List α} {H : List α}, a.Nodup → (∀ x ∈ a, x ∉ H) →
+    SelsOK C H (a.map (fun x => (⟨x, []⟩ : Sel α)))
+  | [], _, _, _ => trivial
+  | x :: a, H, hnd, hnew => by
+    have hnd' := List.nodup_cons.1 hnd
+    refine ⟨Or.inl ⟨rfl, hnew x List.mem_cons_self⟩, selsOK_init C hnd'.2 ?_⟩
+    intro y hy hmem
+    rcases List.mem_append.1 hmem with h1 | h1
+    · exact hnew y (List.mem_cons_of_mem _ hy) h1
+    · simp only [List.mem_singleton] at h1
+      subst h1
+      exact hnd'.1 hy
 
 theorem map_sel_x (l : List α) (cands : List α) :
     (l.map (fun x => (⟨x, cands⟩ : Sel α))).map (·.x) = l := by
@@ -851,19 +944,62 @@ theorem filterDup_cases_H {smp H l : List α} (hs : ∀ x, x ∈ smp ↔ x ∈ H
     · exact Or.inr h
 
 theorem askInitBatch_fresh {s : Opt α} {n : Nat} {cands : List α} {H : List α} (hg : Good s H)
-    (hC : C cands) :
+    (hi : InitOK s H) (hr : s.randomPhase = true) (hC : C cands) :
     SelsOK C H (askInitBatch s n cands).2 ∧
-      Good (askInitBatch s n cands).1 (H ++ (askInitBatch s n cands).2.map (·.x)) := by
-  unfold askInitBatch
-  simp only [hg.noInit, hg.on, List.length_nil, Nat.zero_min, List.take_nil,
-    List.map_nil, List.nil_append, List.drop_nil, Nat.sub_zero]
-  constructor
-  · apply selsOK_of_fresh C hC
-    rcases filterDup_cases_H (l := cands) hg.smp with h | ⟨h1, h2, _⟩
+      Good (askInitBatch s n cands).1 (H ++ (askInitBatch s n cands).2.map (·.x)) ∧
+      InitOK (askInitBatch s n cands).1 (H ++ (askInitBatch s n cands).2.map (·.x)) := by
+  have ⟨hnd, hnew⟩ := hi hr
+  have hk : s.initSamples.take (min s.initSamples.length n) = s.initSamples.take n := by
+    rw [List.take_eq_take_iff]; omega
+  have hd : s.initSamples.drop (min s.initSamples.length n) = s.initSamples.drop n := by
+    by_cases h : s.initSamples.length ≤ n
+    · rw [Nat.min_eq_left h, List.drop_eq_nil_of_le (Nat.le_refl _), List.drop_eq_nil_of_le h]
+    · rw [Nat.min_eq_right (by omega)]
+  have hnd' : (s.initSamples.take n ++ s.initSamples.drop n).Nodup := by
+    rw [List.take_append_drop]; exact hnd
+  have hsmp' : ∀ x, x ∈ s.sampled ++ s.initSamples.take n ↔ x ∈ H ++ s.initSamples.take n := by
+    intro x; rw [List.mem_append, List.mem_append, hg.smp x]
+  have hanew : ∀ x ∈ s.initSamples.take n, x ∉ H := fun x hx => hnew x (List.mem_of_mem_take hx)
+  -- the two halves of the batch
+  have hX : (askInitBatch s n cands).2.map (·.x) = s.initSamples.take n ++
+      (filterDup true (s.sampled ++ s.initSamples.take n) cands).take (n - min s.initSamples.length n) := by
+    simp [askInitBatch, hk, hg.on, List.map_append, Function.comp_def]
+  refine ⟨?_, ?_, ?_⟩
+  · have hZ : (askInitBatch s n cands).2 = (s.initSamples.take n).map (fun x => (⟨x, []⟩ : Sel α)) ++
+        ((filterDup true (s.sampled ++ s.initSamples.take n) cands).take
+          (n - min s.initSamples.length n)).map (fun x => (⟨x, cands⟩ : Sel α)) := by
+      simp [askInitBatch, hk, hg.on]
+    rw [hZ]
+    apply selsOK_append C (selsOK_init C (List.nodup_append.1 hnd').1 hanew)
+    rw [map_sel_x]
+    apply selsOK_of_fresh C hC
+    rcases filterDup_cases_H (l := cands) hsmp' with h | ⟨h1, h2, _⟩
     · exact Or.inl h
     · exact Or.inr ⟨h1.sublist (List.take_sublist _ _), fun x hx => h2 x (List.mem_of_mem_take hx)⟩
-  · rw [map_sel_x]
-    exact good_append hg _ _ hg.on.symm (by simp [hg.noInit]) rfl
+  · rw [hX]
+    refine good_append hg _ _ ?_ ?_ hg.cnt
+    · simp [askInitBatch]
+    · simp [askInitBatch, hk, hg.on]
+  · intro _
+    rw [hX]
+    show (s.initSamples.drop (min s.initSamples.length n)).Nodup ∧
+      ∀ x ∈ s.initSamples.drop (min s.initSamples.length n), x ∉ _
+    rw [hd]
+    refine ⟨(List.nodup_append.1 hnd').2.1, ?_⟩
+    intro x hx hmem
+    have hxI : x ∈ s.initSamples := List.mem_of_mem_drop hx
+    rcases List.mem_append.1 hmem with hmem | hmem
+    · exact hnew x hxI hmem
+    · rcases List.mem_append.1 hmem with hmem | hmem
+      · exact (List.nodup_append.1 hnd').2.2 x hmem x hx rfl
+      · -- a pending point is left only if the whole batch was made of initial points
+        have hlen : n < s.initSamples.length := by
+          apply Nat.lt_of_not_le
+          intro hle
+          rw [List.drop_eq_nil_of_le hle] at hx
+          cases hx
+        rw [Nat.min_eq_right (by omega), Nat.sub_self, List.take_zero] at hmem
+        cases hmem
 
 theorem pickQ_cases {m : Nat} {o ch : List Nat} {i : Nat} (h : pickQ m o ch = some i) :
     (i < m ∧ i ∉ ch) ∨ (∀ j ∈ o, j < m → j ∈ ch) := by
@@ -919,7 +1055,7 @@ theorem qLoop_fresh {f cands H1 : List α} (hC : C cands)
         obtain ⟨new, rfl, hnew⟩ := qLoop_fresh hC hcase
           (fun o' ho' => hcov o' (List.mem_cons_of_mem _ ho')) hacc' hch' h
         refine ⟨x :: new, by simp, ?_⟩
-        refine ⟨⟨hC, ?_⟩, by simpa [List.append_assoc] using hnew⟩
+        refine ⟨Or.inr ⟨hC, ?_⟩, by simpa [List.append_assoc] using hnew⟩
         intro hxH
         rcases hcase with hE | ⟨hnd, hfresh, hcover⟩
         · exact fun c hc => List.mem_append_left _ (hE c hc)
@@ -973,22 +1109,22 @@ theorem askQ_fresh {s s' : Opt α} {n : Nat} {x0 : α} {cands : List α} {orders
     (by intro x hx; cases hx) (by intro j hj; cases hj) hX
   simp only [List.nil_append] at hnew
   subst hnew
-  refine ⟨⟨hn x0 hx0, by simpa using hsel⟩, ?_⟩
+  refine ⟨⟨Or.inr (hn x0 hx0), by simpa using hsel⟩, ?_⟩
   rw [sels_x_cons]
-  exact good_append hg _ _ rfl rfl (by simp [List.append_assoc])
+  exact good_append hg _ _ rfl (by simp [List.append_assoc]) hg.cnt
 
 /-- constant-liar loop: `Hc` = proposals so far (`self.sampled` and the copy's `sampled`) -/
 theorem clLoop_fresh : ∀ (k : Nat) {steps : List (ClStep α τ)} {opt : Opt α} {smp smp' : List α}
     {X X' : List (Sel α)} {Hc : List α},
-    Good opt Hc → NextOK C opt Hc → (∀ x, x ∈ smp ↔ x ∈ Hc) →
+    Good opt Hc → InitOK opt Hc → NextOK C opt Hc → (∀ x, x ∈ smp ↔ x ∈ Hc) →
     (∀ st ∈ steps, C st.askCands ∧ FitRT C ops st.fit) →
     clLoop ops k steps opt smp X = .ok (smp', X') →
     ∃ new, X' = X ++ new ∧ SelsOK C Hc new ∧ (∀ x, x ∈ smp' ↔ x ∈ Hc ++ new.map (·.x))
-  | 0, steps, opt, smp, smp', X, X', Hc, _, _, hs, _, h => by
+  | 0, steps, opt, smp, smp', X, X', Hc, _, _, _, hs, _, h => by
     simp [clLoop] at h
     obtain ⟨rfl, rfl⟩ := h
     exact ⟨[], by simp, trivial, by simpa using hs⟩
-  | k + 1, steps, opt, smp, smp', X, X', Hc, hg, hn, hs, hst, h => by
+  | k + 1, steps, opt, smp, smp', X, X', Hc, hg, hi, hn, hs, hst, h => by
     unfold clLoop at h
     split at h
     · cases h
@@ -997,7 +1133,7 @@ theorem clLoop_fresh : ∀ (k : Nat) {steps : List (ClStep α τ)} {opt : Opt α
       split at h
       · cases h
       · rename_i opt1 sel ha
-        have ⟨hsel, hg1⟩ := askOne_fresh hg hn hst0.1 ha
+        have ⟨hsel, hg1, hi1⟩ := askOne_fresh hg hi hn hst0.1 ha
         have hs1 : ∀ x, x ∈ smp ++ [sel.x] ↔ x ∈ Hc ++ [sel.x] := by
           intro x; rw [List.mem_append, List.mem_append, hs x]
         split at h
@@ -1007,7 +1143,8 @@ theorem clLoop_fresh : ∀ (k : Nat) {steps : List (ClStep α τ)} {opt : Opt α
           · cases h
           · rename_i opt2 ht
             have ⟨hg2, _, hn2⟩ := tellCore_nextOK hg1 hst0.2 ht
-            obtain ⟨new, rfl, hnew, hsmp⟩ := clLoop_fresh k hg2 hn2 hs1
+            have hi2 := tellCore_initOK hi1 ht
+            obtain ⟨new, rfl, hnew, hsmp⟩ := clLoop_fresh k hg2 hi2 hn2 hs1
               (fun st' h' => hst st' (List.mem_cons_of_mem _ h')) h
             refine ⟨sel :: new, by simp, ⟨hsel, hnew⟩, ?_⟩
             intro x
@@ -1023,40 +1160,44 @@ structure AskRT (C : List α → Prop) (ops : Ops α τ) (env : AskEnv α τ) : 
   refresh : FitRT C ops env.refresh
 
 theorem askCL_fresh {s s' : Opt α} {n : Nat} {strat : Strategy} {env : AskEnv α τ}
-    {Z : List (Sel α)} {H : List α} (hg : Good s H) (he : AskRT C ops env)
+    {Z : List (Sel α)} {H : List α} (hg : Good s H) (hi : InitOK s H) (he : AskRT C ops env)
     (h : askCL ops s n strat env = .ok (s', Z)) : SelsOK C H Z ∧ Good s' (H ++ Z.map (·.x)) := by
   obtain ⟨opt, smp, hc, hl, rfl⟩ := askCL_ok h
-  have ⟨hgo, hno⟩ := copy_next hg he.copyFit hc
-  obtain ⟨new, hnew, hsel, hsmp⟩ := clLoop_fresh n hgo (fun _ => hno) hg.smp he.steps hl
+  have ⟨hgo, hno, f1, f2, f3⟩ := copy_next hg he.copyFit hc
+  have hio : InitOK opt H := initOK_of_fields hi f3 (by omega) f2
+  obtain ⟨new, hnew, hsel, hsmp⟩ := clLoop_fresh n hgo hio (fun _ => hno) hg.smp he.steps hl
   simp only [List.nil_append] at hnew
   subst hnew
-  exact ⟨hsel, ⟨hg.on, hg.noInit, hsmp⟩⟩
+  exact ⟨hsel, ⟨hg.on, hsmp, hg.cnt⟩⟩
 
 /-- the multi-point strategies C08 quantifies over (constant liar and qUCB families) -/
 def Strategy.c08 (st : Strategy) : Prop := st.isOneShot = false
 
 theorem ask_fresh {s s' : Opt α} {n : Nat} {strat : Strategy} {env : AskEnv α τ}
-    {Z : List (Sel α)} {H : List α} (hg : Good s H) (hn : NextOK C s H) (hcache : s.cache = none)
-    (hst : strat.c08) (he : AskRT C ops env)
-    (h : ask ops s (some n) strat env = .ok (s', Z)) : SelsOK C H Z ∧ Good s' (H ++ Z.map (·.x)) := by
+    {Z : List (Sel α)} {H : List α} (hg : Good s H) (hi : InitOK s H) (hn : NextOK C s H)
+    (hcache : s.cache = none) (hst : strat.c08) (he : AskRT C ops env)
+    (h : ask ops s (some n) strat env = .ok (s', Z)) :
+    SelsOK C H Z ∧ Good s' (H ++ Z.map (·.x)) ∧ InitOK s' (H ++ Z.map (·.x)) := by
   have single : ∀ {s' Z}, (match askOne s env.cands with
       | .error e => (.error e : Except Err (Opt α × List (Sel α)))
-      | .ok (s', sel) => .ok (s', [sel])) = .ok (s', Z) → SelsOK C H Z ∧ Good s' (H ++ Z.map (·.x)) := by
+      | .ok (s', sel) => .ok (s', [sel])) = .ok (s', Z) →
+      SelsOK C H Z ∧ Good s' (H ++ Z.map (·.x)) ∧ InitOK s' (H ++ Z.map (·.x)) := by
     intro s' Z h
     split at h
     · cases h
     · rename_i s1 sel ha
       cases h
-      have ⟨h1, h2⟩ := askOne_fresh hg hn he.cands ha
-      exact ⟨⟨h1, trivial⟩, by simpa using h2⟩
+      have ⟨h1, h2, h3⟩ := askOne_fresh hg hi hn he.cands ha
+      exact ⟨⟨h1, trivial⟩, by simpa using h2, by simpa using h3⟩
   unfold ask at h
   split at h
   · exact single h
   · exact single h
   · rename_i m hm1 hm2
     split at h
-    · cases h
-      exact askInitBatch_fresh hg he.cands
+    · rename_i hphase
+      cases h
+      exact askInitBatch_fresh hg hi hphase.2 he.cands
     · rename_i hphase
       split at h
       · cases h
@@ -1074,14 +1215,19 @@ theorem ask_fresh {s s' : Opt α} {n : Nat} {strat : Strategy} {env : AskEnv α 
               split at hx0
               · exact hx0
               · cases hx0
-            exact askQ_fresh hg (hn hrand) hx0' he.cands he.orders h
+            have hq := askQ_fresh hg (hn hrand) hx0' he.cands he.orders h
+            obtain ⟨X, _, rfl, _⟩ := askQ_ok h
+            exact ⟨hq.1, hq.2, initOK_of_not_random _ hrand⟩
           · rw [hcache] at h
-            exact askCL_fresh hg he h
+            have hq := askCL_fresh hg hi he h
+            obtain ⟨opt, smp, _, _, rfl⟩ := askCL_ok h
+            exact ⟨hq.1, hq.2, initOK_of_not_random _ hrand⟩
 
 /-- the state between two calls of the ask/tell interface: the bookkeeping invariant, and — when
 no configuration was asked since the last tell — a fresh `_next_x` and an empty cache -/
 structure Bnd (C : List α → Prop) (c : Cbo α) (H : List α) : Prop where
   good : Good c.opt H
+  init : InitOK c.opt H
   ready : c.asked = false → NextOK C c.opt H ∧ c.opt.cache = none
   strat : c.strat.c08
 
@@ -1096,25 +1242,25 @@ structure RoundRT (C : List α → Prop) (ops : Ops α τ) (r : Round α τ) : P
   tell : FitRT C ops r.tellEnv
 
 theorem cboTell_next {c c' : Cbo α} {results : List (α × Res)} {e : Fit α τ} {H : List α}
-    (hg : Good c.opt H) (hst : c.strat.c08) (he : FitRT C ops e)
+    (hg : Good c.opt H) (hi : InitOK c.opt H) (hst : c.strat.c08) (he : FitRT C ops e)
     (h : cboTell ops c results e = .ok c') : Bnd C c' H := by
   obtain ⟨o, rfl, ⟨_, hu⟩ | ⟨_, ht⟩⟩ := cboTell_ok h
   · have ⟨h1, h2, h3⟩ := updateNext_next hg he hu
-    exact ⟨h1, fun _ => ⟨h3, h2⟩, hst⟩
+    exact ⟨h1, updateNext_initOK hi hu, fun _ => ⟨h3, h2⟩, hst⟩
   · have ⟨h1, h2, h3⟩ := tellCore_nextOK hg he (tell_ok ht).2
-    exact ⟨h1, fun _ => ⟨h3, h2⟩, hst⟩
+    exact ⟨h1, tellCore_initOK hi (tell_ok ht).2, fun _ => ⟨h3, h2⟩, hst⟩
 
 theorem cboAsk_fresh {c c' : Cbo α} {n : Nat} {env : AskEnv α τ} {Z : List (Sel α)} {H : List α}
     (hb : Bnd C c H) (he : AskRT C ops env) (h : cboAsk ops c n env = .ok (c', Z)) :
     SelsOK C H Z ∧ Bnd C c' (H ++ Z.map (·.x)) := by
   obtain ⟨o0, o, h0, hask, rfl⟩ := cboAsk_ok h
-  have h00 : Good o0 H ∧ NextOK C o0 H ∧ o0.cache = none := by
+  have h00 : Good o0 H ∧ NextOK C o0 H ∧ o0.cache = none ∧ InitOK o0 H := by
     rcases h0 with ⟨_, hu⟩ | ⟨ha, rfl⟩
     · have ⟨h1, h2, h3⟩ := updateNext_next hb.good he.refresh hu
-      exact ⟨h1, h3, h2⟩
-    · exact ⟨hb.good, (hb.ready ha).1, (hb.ready ha).2⟩
-  have ⟨hX, hg1⟩ := ask_fresh h00.1 h00.2.1 h00.2.2 hb.strat he hask
-  exact ⟨hX, ⟨hg1, (fun ha => by cases ha), hb.strat⟩⟩
+      exact ⟨h1, h3, h2, updateNext_initOK hb.init hu⟩
+    · exact ⟨hb.good, (hb.ready ha).1, (hb.ready ha).2, hb.init⟩
+  have ⟨hX, hg1, hi1⟩ := ask_fresh h00.1 h00.2.2.2 h00.2.1 h00.2.2.1 hb.strat he hask
+  exact ⟨hX, ⟨hg1, hi1, (fun ha => by cases ha), hb.strat⟩⟩
 
 /-- **freshness along any sequence of ask/tell calls** -/
 theorem runOps_fresh : ∀ {l : List (Op α τ)} {c c' : Cbo α} {Z : List (Sel α)} {H : List α},
@@ -1142,7 +1288,7 @@ theorem runOps_fresh : ∀ {l : List (Op α τ)} {c c' : Cbo α} {Z : List (Sel 
     split at h
     · cases h
     · rename_i c1 ht
-      have hb1 := cboTell_next hb.good hb.strat (hr _ List.mem_cons_self) ht
+      have hb1 := cboTell_next hb.good hb.init hb.strat (hr _ List.mem_cons_self) ht
       exact runOps_fresh hb1 (fun o h' => hr o (List.mem_cons_of_mem _ h')) h
 
 theorem roundsRT_ops {rounds : List (Round α τ)} (h : ∀ r ∈ rounds, RoundRT C ops r) :
@@ -1154,10 +1300,13 @@ theorem roundsRT_ops {rounds : List (Round α τ)} (h : ∀ r ∈ rounds, RoundR
   · exact (h r hr).ask
   · exact (h r hr).tell
 
-/-- index form of `SelsOK` -/
+/-- index form of `SelsOK`: the `i`-th proposal is an initial point never proposed before, or
+was selected from a list satisfying `C` which was exhausted if the proposal is a repetition -/
 theorem selsOK_index : ∀ {Z : List (Sel α)} {H : List α}, SelsOK C H Z →
-    ∀ (i : Nat) (hi : i < Z.length), C Z[i].offered ∧
-      (Z[i].x ∈ H ++ (Z.take i).map (·.x) → ∀ c ∈ Z[i].offered, c ∈ H ++ (Z.take i).map (·.x))
+    ∀ (i : Nat) (hi : i < Z.length),
+      (Z[i].offered = [] ∧ Z[i].x ∉ H ++ (Z.take i).map (·.x)) ∨
+      (C Z[i].offered ∧
+        (Z[i].x ∈ H ++ (Z.take i).map (·.x) → ∀ c ∈ Z[i].offered, c ∈ H ++ (Z.take i).map (·.x)))
   | [], _, _, i, hi => by simp at hi
   | z :: Z, H, h, 0, _ => by
     have := h.1
@@ -1170,9 +1319,16 @@ theorem selsOK_index : ∀ {Z : List (Sel α)} {H : List α}, SelsOK C H Z →
 end fresh3
 
 
+theorem startInit_bnd (C : List α → Prop) (nInit : Int) (dummy : Bool) (strat : Strategy)
+    (ign : Bool) (init : List α) (hst : strat.c08) (hnd : init.Nodup) :
+    Bnd C (Cbo.startInit (α := α) nInit dummy strat ign init) [] :=
+  ⟨⟨rfl, fun _ => Iff.rfl, by simp [Cbo.startInit, Opt.init, nonFail]⟩,
+   fun _ => ⟨hnd, fun _ _ h => by cases h⟩,
+   fun _ => ⟨(by intro _ x hx; cases hx), rfl⟩, hst⟩
+
 theorem start_bnd (C : List α → Prop) (nInit : Int) (dummy : Bool) (strat : Strategy)
     (ign : Bool) (hst : strat.c08) : Bnd C (Cbo.start (α := α) nInit dummy strat ign) [] :=
-  ⟨⟨rfl, rfl, fun _ => Iff.rfl⟩, fun _ => ⟨(by intro _ x hx; cases hx), rfl⟩, hst⟩
+  startInit_bnd C nInit dummy strat ign [] hst List.nodup_nil
 
 
 theorem nodup_of_not_mem_take {β : Type} (L : List β)
